@@ -24,15 +24,15 @@ var fullMemo = gram.Full.With("full+memo", gram.Memo)
 func c03Specs(tier string) []spaceSpec {
 	if tier == "thorough" {
 		return []spaceSpec{
-			{&gram.Space{Name: "root+inline-memo", Alpha: fullMemo, HasRoot: true, Min: 2, Max: 5}, 4, ab},
-			{&gram.Space{Name: "root+1shared", Alpha: fullMemo, NSh: 1, HasRoot: true, Min: 2, Max: 6}, 4, ab},
-			{&gram.Space{Name: "root+2shared", Alpha: gram.Full, NSh: 2, HasRoot: true, Min: 3, Max: 6}, 3, ab},
+			{sp: &gram.Space{Name: "root+inline-memo", Alpha: fullMemo, HasRoot: true, Min: 2, Max: 6}, maxLen: 4, alpha: ab},
+			{sp: &gram.Space{Name: "root+1shared", Alpha: fullMemo, NSh: 1, HasRoot: true, Min: 2, Max: 7}, maxLen: 4, alpha: ab},
+			{sp: &gram.Space{Name: "root+2shared", Alpha: gram.Full, NSh: 2, HasRoot: true, Min: 3, Max: 7}, maxLen: 3, alpha: ab},
 		}
 	}
 	return []spaceSpec{
-		{&gram.Space{Name: "root+inline-memo", Alpha: fullMemo, HasRoot: true, Min: 2, Max: 4}, 4, ab},
-		{&gram.Space{Name: "root+1shared", Alpha: fullMemo, NSh: 1, HasRoot: true, Min: 2, Max: 5}, 4, ab},
-		{&gram.Space{Name: "root+2shared", Alpha: gram.Full, NSh: 2, HasRoot: true, Min: 3, Max: 5}, 3, ab},
+		{sp: &gram.Space{Name: "root+inline-memo", Alpha: fullMemo, HasRoot: true, Min: 2, Max: 5}, maxLen: 4, alpha: ab},
+		{sp: &gram.Space{Name: "root+1shared", Alpha: fullMemo, NSh: 1, HasRoot: true, Min: 2, Max: 6}, maxLen: 4, alpha: ab},
+		{sp: &gram.Space{Name: "root+2shared", Alpha: gram.Full, NSh: 2, HasRoot: true, Min: 3, Max: 6}, maxLen: 3, alpha: ab},
 	}
 }
 
